@@ -1,10 +1,12 @@
 #!/bin/bash
-# usage: verify_mutation.sh <worktree> <test filter for the demo> [lib|integration]
+# usage: verify_mutation.sh <worktree> <test filter for the demo> [lib|integration] [extra cargo flags, e.g. "--features verif"]
 # In the scratch worktree (patch.diff applied, demo.diff not applied):
 #  1. full baseline suite with the change, guard off -> must match BASELINE.json stable_pass
 #  2. demo test with the change -> must fail; without the change -> must pass
 set -u
-WT=$1; FILTER=$2
+WT=$1; FILTER=$2; KIND=${3:-lib}; EXTRA=${4:-}
+if [ "$KIND" = integration ]; then TARGET="--test integration"; else TARGET="--lib"; fi
+export RUST_BACKTRACE=0
 export CARGO_TARGET_DIR=$WT/target CARGO_NET_OFFLINE=true
 cd $WT || exit 2
 git status --short | grep -v MUTATION | grep -v '^??' 
@@ -23,9 +25,9 @@ print('BASELINE_WITH_CHANGE passed', len(p), 'stable_pass missing', sorted(sp-p)
 PY
 echo "== demo with the change (expect failure)"
 git apply MUTATION/demo.diff || { echo "demo.diff does not apply"; exit 2; }
-cargo test --offline --lib -j 8 -- --test-threads 4 "$FILTER" 2>&1 | grep -E "^test |test result" | tail -5
+cargo test --offline $TARGET $EXTRA -j 8 -- --test-threads 4 $FILTER 2>&1 | grep -E "^test |test result" | tail -5
 echo "== demo without the change (expect pass)"
 git apply -R MUTATION/patch.diff
-cargo test --offline --lib -j 8 -- --test-threads 4 "$FILTER" 2>&1 | grep -E "^test |test result" | tail -5
+cargo test --offline $TARGET $EXTRA -j 8 -- --test-threads 4 $FILTER 2>&1 | grep -E "^test |test result" | tail -5
 git apply MUTATION/patch.diff
 git apply -R MUTATION/demo.diff
